@@ -35,7 +35,6 @@ impl Manager {
         // Stage 2: Generate full CFG
         let mut cfg = Cfg::new_with_predefined_call_names(nodes, &Some(interrupt_call_names))?;
         NodeDirectionPass::run(&mut cfg)?;
-        EliminateDeadCodeDirectionsPass::run(&mut cfg)?;
         // Cutting the edges behind an exit ecall can make further values known
         // (a join loses a predecessor), which can reveal further exit ecalls:
         // alternate the two passes until no more edges are cut, so that the
@@ -46,12 +45,14 @@ impl Manager {
         Self::settle_values_and_exits(&mut cfg)?;
         FunctionMarkupPass::run(&mut cfg)?;
         Self::settle_values_and_exits(&mut cfg)?;
-        // EliminateDeadCodeDirectionsPass::run(&mut cfg)?; // to eliminate ecall terminated code
         LivenessPass::run(&mut cfg)?;
         Ok(cfg)
     }
     fn settle_values_and_exits(cfg: &mut Cfg) -> Result<(), Box<CfgError>> {
         loop {
+            // (the code behind an exit ecall that has just been cut off may
+            // have become unreachable)
+            EliminateDeadCodeDirectionsPass::run(cfg)?;
             AvailableValuePass::run(cfg)?;
             let edges_before: usize = cfg.iter().map(|node| node.nexts().len()).sum();
             EcallTerminationPass::run(cfg)?;
